@@ -17,7 +17,9 @@ TEXT = ("Must-pass-through (taint) analysis over every raw storage reader of the
         "unwrap/expect on fallible conversions (H5); pack loading loops end by exhaustion or Err only (H6); in everything "
         "reachable from reload / refresh / reload_until an unwrap/expect of a JSON shape conversion or map lookup is "
         "dominated by the matching shape test on the same value, or the value is built locally (H7: a hash-consistent but "
-        "malformed stored item must be skipped or reported, not abort the thread). Decides that no path interprets unverified bytes; does not decide "
+        "malformed stored item must be skipped or reported, not abort the thread; the same for every fallible text / number "
+        "conversion of a non-constant value), loops over storage listings are entered whenever the listing is non-empty (H6b), "
+        "and no overflow-checked arithmetic is applied to an identifier index on those paths (H8). Decides that no path interprets unverified bytes; does not decide "
         "equality of the surviving state with the state of the intact subset (history-level).")
 TRUSTED = ["rustc nightly MIR and callee resolution", "sha2/hex compute SHA-256", "serde_json parses only what it is given",
            "backends return the stored bytes (C17)"]
